@@ -360,7 +360,8 @@ def stats_obligation(u, ctx, store, sample_arr, stats_val, replay, inst):
         a = getattr(args[0], "a", None)
         ok = a is not None and tuple(a.shape) == tuple(sample_arr.shape)
         if ok and a.size:
-            ok = z3.And([same(x, y) for x, y in zip(a.reshape(-1), sample_arr.reshape(-1))])
+            # the summary works on an f32 view: on an f64 configuration that is the rounded returned draw
+            ok = z3.And([z3.Or(same(x, y), same(x, mirsym.narrow32(y))) for x, y in zip(a.reshape(-1), sample_arr.reshape(-1))])
     u.holds(ctx, "the returned diagnostics are the summary computed from exactly the returned draws", ok, replay, inst)
 
 
@@ -608,17 +609,16 @@ def c10_reporter_nuts(out, tier, seed):
     """NUTS::run_progress as a whole (its own copy of the reporter loop), workers = real NUTSChain::run_progress with the
     transition summarised."""
     eng = mir_load.load_engine()
-    cfgs = [(2, 2), (6, 1)] + ([(7, 1), (3, 2)] if tier == "thorough" else [])
+    cfgs = [(2, 2, "f32"), (6, 1, "f32"), (2, 1, "f64")] + ([(7, 1, "f32"), (3, 2, "f32"), (3, 1, "f64")] if tier == "thorough" else [])
     u = MUnit(out, "C10", "c10_reporter_nuts", eng,
               functions=["NUTS::run_progress (+ all closures, incl. the reporter thread's body)", "NUTSChain::run_progress", "NUTSChain::init_chain",
                          "stats::ChainTracker", "stats::collect_rhat"],
-              bounds=["(chains, latest arrival iteration) in %s; dim 1, n_collect = 4, n_discard = 1; backend f32" % (cfgs,)],
+              bounds=["(chains, latest arrival iteration, element type = backend precision) in %s; dim 1, n_collect = 4, n_discard = 1; in the "
+                      "f64 configurations every conversion to f32 is an uninterpreted rounding (a draw that went through f32 is not "
+                      "provably the draw)" % (cfgs,)],
               assumptions=ASSUME + ["reporter executed at join time against an arbitrary arrival schedule of the final reports; workers "
                                     "report once and their sends succeed; indicatif no-op; RunStats::from and find_reasonable_epsilon summarised"],
               out_of_scope=["wall-clock time, real scheduling, terminal output", "intermediate (non-final) reports"])
-    eng.typemap["T"] = "f32"
-    eng.typemap["FloatElem"] = "f32"
-
     state = {}
     stats_recorder(eng, state)
     eng.override(r"^Instant::now$", lambda e, c, a: Num(0))
@@ -677,7 +677,11 @@ def c10_reporter_nuts(out, tier, seed):
     eng.override(r"^std::thread::spawn::<", spawn)
     eng.override(r"^JoinHandle::<.*>::join$", join)
     fn = eng.find_fn("NUTS::run_progress")
-    for (nc, latest) in cfgs:
+    for (nc, latest, prec) in cfgs:
+        eng.typemap["T"] = prec
+        eng.typemap["FloatElem"] = prec
+        eng.narrowing = prec == "f64"
+
         def run(ctx, nc=nc, latest=latest):
             import models_core
             state.clear()
@@ -702,7 +706,7 @@ def c10_reporter_nuts(out, tier, seed):
                 continue
             inits, r, st, hs = res
             n_ok += 1
-            inst = "chains=%d arrivals=%s iterations=%s" % (nc, st.get("arrival"), st.get("iterations"))
+            inst = "chains=%d arrivals=%s iterations=%s precision=%s" % (nc, st.get("arrival"), st.get("iterations"), prec)
             u.holds(ctx, "NUTS progress mode with a live reporter neither panics nor errs", r.variant == "Ok", replay_reporter_nuts, inst)
             u.holds(ctx, "the NUTS reporter terminates within latest-arrival + ceil(chains/5) + 2 iterations for every completion order",
                     True, None, inst)
@@ -719,14 +723,15 @@ def c10_reporter_nuts(out, tier, seed):
                     u.holds(ctx, "every NUTS chain performs exactly n_collect + n_discard transitions in progress mode",
                             all(len(hs[c]) == 5 for c in range(nc)), replay_reporter_nuts, inst)
                     stats_obligation(u, ctx, st, a, r.fields[0].fields[1], replay_progress_stats("nuts"), inst)
-        u.reached("NUTS reporter runs to completion with %d chains" % nc, n_ok)
+        u.reached("NUTS reporter runs to completion with %d chains (%s)" % (nc, prec), n_ok)
+    eng.narrowing = False
     u.done()
 
 
 def replay_reporter_nuts(model=None):
     tried = []
-    for k in (6, 2):
-        case = {"case": "progress_terminates_nuts", "chains": k, "limit_s": 40}
+    for k, prec in ((6, "f32"), (2, "f32"), (2, "f64")):
+        case = {"case": "progress_terminates_nuts", "chains": k, "limit_s": 40, "precision": prec}
         nat = native(case)
         bad = [p for p, r in nat.items() if isinstance(r, dict) and (r.get("timeout") or r.get("panic") or r.get("ok") is False
                                                                       or r.get("shifted_trajectory") is False)]
